@@ -36,8 +36,14 @@ PreFunc == << LetS(n_c, L(IntV(10))),
 PreFop3 == << LetS(n_l, ListE(<< L(IntV(1)), L(IntV(2)) >>)),
               LetS(n_t, TupE(<< F(n_a, L(IntV(1))), F(n_b, L(IntV(2))) >>)),
               LetS(n_s, L(StrV(<< "a", "b" >>))) >>
+(* let w = {f = func (x) => x + 1, g = func () => 7, a = 1, u = {b = 2}}; *)
+n_w == << "w" >>
+PreDot == << LetS(n_w, TupE(<< F(n_f, FuncE(<< n_x >>, Bin("add", S(n_x), L(IntV(1))))),
+                              F(n_g, FuncE(<< >>, L(IntV(7)))),
+                              F(n_a, L(IntV(1))),
+                              F(n_u, TupE(<< F(n_b, L(IntV(2))) >>)) >>)) >>
 (* a bit of everything for the simulation of the full grammar *)
-PreSim == << LetS(n_t, TupE(<< F(n_a, L(IntV(1))), F(n_b, L(StrV(<< "x" >>))) >>)),
+PreSim == PreDot \o << LetS(n_t, TupE(<< F(n_a, L(IntV(1))), F(n_b, L(StrV(<< "x" >>))) >>)),
              LetS(n_l, ListE(<< L(IntV(1)), L(IntV(2)), L(IntV(3)) >>)),
              LetS(n_s, L(StrV(<< "a", "b" >>))),
              LetS(n_inc, FuncE(<< n_x >>, Bin("add", S(n_x), L(IntV(1))))),
@@ -131,12 +137,13 @@ FamFuncDef == {"lit", "var", "bin", "func", "select", "let"}
 FamModDef == {"lit", "var", "bin", "module", "dot", "letuse"}
 FamFuncUse == {"lit", "var", "bin", "func", "select", "list", "letuse", "exprstmt"}
 FamCast == {"lit", "var", "bin", "cast", "let"}
+FamDotUse == {"lit", "var", "bin", "dot", "dotcall", "dotcopy", "let", "exprstmt"}
 FamScopeMod == {"lit", "var", "bin", "module", "dot", "letuse", "outerref"}
 FamScopeFn == {"lit", "var", "bin", "func", "fmt1", "letuse", "leakref", "fwdref", "let", "call"}
 FamRebind == {"lit", "var", "bin", "let", "badlet", "reserved", "tuple"}
 FamBind == {"lit", "var", "bin", "func", "call", "fmt1", "module", "copy", "let", "badlet", "reserved", "tuple"}
 FamSim == {"lit", "var", "bin", "not", "let", "exprstmt", "list", "tuple", "dot", "copy", "self", "in", "is",
            "select", "func", "call", "badcall", "module", "fop", "fmt", "fmtbad", "fmt1", "range", "cast", "fail",
-           "trace", "letuse"}
+           "trace", "letuse", "dotcall", "dotcopy"}
 FamAll == FamOps \cup FamData \cup FamSelect \cup FamFunc \cup FamMod \cup FamFop \cup FamMisc
 =============================================================================
